@@ -145,6 +145,12 @@ func init() {
 		Stubs:     []string{"protocol servers, API/metrics/pprof/playback listeners: disabled by configuration (no sockets exist inside the simulation)", "HTTP layer of internal/api: the harness decodes the JSON body like the handlers do and calls the apiParent methods of Core directly", "github.com/fsnotify/fsnotify: simulated, silent"},
 		LevelText: "recorded invoke/return histories (stamped with the simulator's event sequence numbers) are checked with porcupine against a sequential model of the documented configuration semantics; a final read after quiescence ties the end state to the model",
 		LevelNote: "trusted: the reference model (worlds/w2/zz_model.go) tracks 4 global and 4 path parameters; other parameters are not compared; porcupine time-outs (20 s) are inconclusive and never reported"})
+	reg(&propDef{ID: "C13", World: "w6", Chunk: 60, Level: "exploration", Quick: 4000, Thorough: 600000, QuickS: 75, ThorS: 1500, Claims: []string{"*"},
+		Rule:      "initial configuration (about 150 global parameters explicit, a random subset of the ten servers and services enabled, 1-4 path entries) x 1-4 bursts of 1-3 racing configuration changes (rewrite of the configuration file changing 0-30 parameters and the path set; API patch of 1-6 global parameters; API patch of the path defaults; API add / patch / replace / delete of a path) separated by 0 ms..1.5 s x optional failure of one component to start x seeded schedule; a check after every burst; non-trivial = at least one configuration was applied after the start; distinct = distinct (bursts, configurations applied, components recreated, components kept, server exited, event-log hash)",
+		Real:      []string{"internal/core.Core: New, run, reloadConf, closeResources (every close* predicate), createResources, doAPIConfig*, APIConfig* (instrumented)", "internal/core path manager and paths, internal/confwatcher, internal/recordcleaner, internal/auth.Manager, internal/logger, internal/conf Load/Validate/Patch*/Clone (real)"},
+		Stubs:     []string{"RTSP, RTSPS, RTMP, RTMPS, HLS, WebRTC, SRT, MoQ servers, Control API, metrics, pprof and playback servers: recording stand-ins generated at check time from the real struct declarations (same exported fields; Initialize/Close report to a registry; the stand-ins register themselves in the metrics exporter and the path manager like the real ones)", "github.com/fsnotify/fsnotify: simulated", "hook processes, pulled sources, forwarders: simulated, unused"},
+		LevelText: "seeded search over histories of configuration changes against the real Core; after every burst, once the server is quiescent: (A) every component slot is present or absent and holds the arguments (and in-place reloaded state) of the same slot in a second server started from nothing on the configuration in force; (B) every component reference held by a running component designates the instance now running; (C) a component is the same running instance as before when none of the configuration parameters read by its own constructor block, by those of the components it references, or by the logger's changed in any configuration applied in between; (D) every stand-in is started once, closed at most once, running exactly while the server holds it, and closed after shutdown",
+		LevelNote: "trusted: the reading of createResources (worlds/w6/zz_plan.go: which parameters and references a constructor block uses) and the stand-ins' interface behaviour; what is decided is core.go's reconciliation, not the real servers' ability to rebind their sockets; in (A) recreating instead of reloading in place is accepted, as the statement allows either"})
 	w3 := func(id, level, rule, text, note string, quick, thorough int, claims ...string) {
 		reg(&propDef{ID: id, World: "w3", Chunk: 10, Level: level, Quick: quick, Thorough: thorough, QuickS: 80, ThorS: 1500,
 			Rule: rule, Claims: claims, LevelText: text, LevelNote: note,
